@@ -12,8 +12,8 @@ PROPS_V = "theories/Props/C06.v"
 THEOREMS = ["C06_accept_iff_conforms", "C06_conforms_flat_exact_keys", "C06_reject_no_trace", "C06_accept_one_event",
             "C06_define_error_keeps_schema", "C06_define_existing_rejected", "C06_define_error_iff", "C06_define_append_only",
             "C06_define_ok_appends", "C06_reachable_wf",
-            "C06_float_time_refuted", "C06_accept_iff_strict_outside_known",
-            "C06_text_refuted", "C06_text_accept_iff_conforms_outside_known", "C06_text_reject_no_trace", "C06_blank_spec",
+            "C06_text_front_transparent", "C06_text_accept_iff_conforms", "C06_former_witnesses_repaired",
+            "C06_text_reject_no_trace", "C06_blank_spec",
             "C06_alias_resolution", "C06_alias_case_insensitive", "C06_unknown_spec_is_string"]
 RULE = ("schemas (1-5 fields over every primitive alias in random case, `T | null` unions in both orders, malformed "
         "specs, enums, date/datetime) x payloads (a conforming payload per the property text, then 0-2 mutations: "
@@ -41,24 +41,24 @@ TRUSTED = [
 
 CLAIMED = True
 MANIFEST = {
- "level_text": "Theorems (all registries reachable by DEFINE, all JSON payloads with unique keys, no bound): the handler accepts a STORE iff it conforms to a declarative specification (type defined, type and context not blank, flat object, keys within the schema, required keys present, each value of the declared kind with the code's reading of every kind spelled out); a rejected STORE leaves registry and events unchanged and an accepted one appends exactly one event; a DEFINE answered with an error leaves the registry unchanged. Three places where the code contradicts the property statement are machine-checked refutations with an exact complement (float times beyond i64 are accepted and saturate; a command line whose payload strings carry unbalanced braces, or whose numbers use 'e+', is rejected by the parser front). The model is run against the real DEFINE/STORE/QUERY path in-process on generated schemas x payloads, and an independent Python oracle re-checks accept <=> conforms and the invisibility of rejected STOREs on the implementation's own answers.",
+ "level_text": "Theorems (all registries reachable by DEFINE, all JSON payloads with unique keys, no bound): the handler accepts a STORE iff it conforms to a declarative specification (type defined, type and context not blank, flat object, keys within the schema, required keys present, each value of the declared kind with the code's reading of every kind spelled out); a rejected STORE leaves registry and events unchanged and an accepted one appends exactly one event; a DEFINE answered with an error leaves the registry unchanged. The three places where the pinned code contradicted the property statement (float times beyond i64 saturated; command lines with braces inside payload strings or with 'e+' numbers were parse errors) were repaired in /repo (8f02d15, fced25a, b3737c8): the equivalence is now proved under the property's own reading of times for every STORE, directly built or on the command line, with no excluded class; the translator reads the three repairs from the Rust text and the proofs stop checking if one regresses. The model is run against the real DEFINE/STORE/QUERY path in-process on generated schemas x payloads, and an independent Python oracle re-checks accept <=> conforms and the invisibility of rejected STOREs on the implementation's own answers.",
  "design_ref": "DESIGN.md §6 C06",
  "level_note": "Trusted: Coq kernel; tools/params/p30_schema.py; ExtrOcamlBasic extraction + OCaml driver; the Rust harness; the Python oracle. Modelled, not verified: serde_json's number shapes, sonic_rs parsing (compared against serde_json on every text case), chrono (via Model/Time.v, C16). Reads after a flush are not part of this check."
 }
 
 # ------------------------------------------------------------------ known findings fallback
 # known_findings.json is assembled from known/*.json by tools/gen_manifest.py (maintainer);
-# until that has been re-run for this property the check reads known/C06.json directly.
+# the check reads this property's entries from their source, known/C06.json, so that a status
+# change there (known -> fixed) takes effect before the maintainer regenerates the merged file.
 _orig_load_known = vlib.load_known
 
 
 def _load_known(prop):
-    ks = _orig_load_known(prop)
-    if prop == PROP and not ks:
+    if prop == PROP:
         p = os.path.join(vlib.VERIF, "known", "C06.json")
         if os.path.exists(p):
-            ks = [k for k in json.load(open(p)) if k.get("property") == prop]
-    return ks
+            return [k for k in json.load(open(p)) if k.get("property") == prop]
+    return _orig_load_known(prop)
 
 
 vlib.load_known = _load_known
@@ -246,7 +246,7 @@ def py_time_string(s):
     return ("bad", None)
 
 
-def value_ok(base_t, variants, v, lenient_float_time=False):
+def value_ok(base_t, variants, v):
     """Does JSON value v have the declared kind?  Returns (ok, expected stored seconds or None)."""
     isnum = isinstance(v, (int, float)) and not isinstance(v, bool)
     if base_t == "String":
@@ -275,7 +275,7 @@ def value_ok(base_t, variants, v, lenient_float_time=False):
             if I64_MIN <= fl <= I64_MAX:
                 return True, fl
             # an out-of-range time is not a parseable time (property text)
-            return lenient_float_time, None
+            return False, None
         return False, None
     raise ValueError(base_t)
 
@@ -284,7 +284,7 @@ def is_blank(s):
     return all(ord(c) in WS for c in s)
 
 
-def conforms(fields, defined, etype_is_defined, ctx, payload, lenient_float_time=False):
+def conforms(fields, defined, etype_is_defined, ctx, payload):
     """Property-text conformance.  Returns (verdict, times) with verdict True / False / None (= the text does not decide:
     some field's spec is not a well-formed type)."""
     if not defined or not etype_is_defined:
@@ -316,7 +316,7 @@ def conforms(fields, defined, etype_is_defined, ctx, payload, lenient_float_time
         v = payload[n]
         if opt and v is None:
             continue
-        ok, sec = value_ok(base_t, s if base_t == "enum" else None, v, lenient_float_time)
+        ok, sec = value_ok(base_t, s if base_t == "enum" else None, v)
         if not ok:
             return False, {}
         if base_t in ("Timestamp", "Date") and sec is not None:
@@ -345,8 +345,9 @@ def parse_out(out):
     return d
 
 
-def judge(c, impl, lenient=False):
-    """The oracle proper; `lenient` = judge as if the three known classes were allowed (used by classify)."""
+def judge(c, impl):
+    """The oracle proper.  No known class is left: the three former ones (FloatTimeSaturates, BraceInString,
+    PlusExponent) are fixed in /repo and a recurrence is an ordinary failure."""
     line = c["line"].split()
     probe = line[0]
     if impl is None or impl in ("PANIC", "ABORT") or impl.startswith(("GENBUG", "UNKNOWN", "MODEL_EXN")):
@@ -399,10 +400,8 @@ def judge(c, impl, lenient=False):
         if V != "0":
             return f"STORE answered {S} but the following QUERY shows {V} new row(s)"
     # --- accept <=> conforms
-    want, times = conforms(fields, defined, etype_def, ctx, payload, lenient_float_time=lenient)
+    want, times = conforms(fields, defined, etype_def, ctx, payload)
     if want is None:
-        return None
-    if lenient and probe == "store_text" and want and S == "PARSE" and (plus or has_brace(payload)):
         return None
     if want and S != "OK":
         return f"conforming STORE (per the property text) answered {S}"
@@ -418,21 +417,11 @@ def judge(c, impl, lenient=False):
 
 
 def oracle(c, impl):
-    return judge(c, impl, lenient=False)
+    return judge(c, impl)
 
 
 def classify(c, impl):
-    """Known-finding class of a failing case: the failure disappears when exactly that class is allowed."""
-    if judge(c, impl, lenient=False) is None:
-        return None
-    if judge(c, impl, lenient=True) is not None:
-        return None
-    line = c["line"].split()
-    o = parse_out(impl)
-    if o.get("S") == "OK":
-        return "FloatTimeSaturates"
-    if line[0] == "store_text" and o.get("S") == "PARSE":
-        return "PlusExponent" if line[6] == "1" else "BraceInString"
+    """No known-finding class is left for C06 (all three are fixed): every oracle failure is new."""
     return None
 
 
